@@ -60,7 +60,17 @@ def gen(rng, tier, n):
         elif r < 0.3 and gt.GEN["embedding"]:
             # a TypeSchemas override for a type that is embedded (directly or two levels down) in the type under inference
             outer = rng.choice(sorted(gt.GEN["embedding"]))
-            inner = rng.choice(gt.embeds_closure(outer))
+            clos = gt.embeds_closure(outer)
+            deep = [x for x in clos if x not in gt.GEN["embeds"].get(outer, [])]     # embedded two or more levels down
+            if not deep:
+                # look for an outer type that does have a two-level embedding
+                for cand in rng.sample(sorted(gt.GEN["embedding"]), min(6, len(gt.GEN["embedding"]))):
+                    cc = gt.embeds_closure(cand)
+                    dd = [x for x in cc if x not in gt.GEN["embeds"].get(cand, [])]
+                    if dd:
+                        outer, clos, deep = cand, cc, dd
+                        break
+            inner = rng.choice(deep) if deep and rng.random() < 0.7 else rng.choice(clos)
             t = {"k": "named", "name": outer} if rng.random() < 0.7 else {"k": "slice", "e": {"k": "named", "name": outer}}
             used.add(outer)
             opts["typeSchemas"] = [{"name": inner, "schema": rng.choice(TS_EMBED_POOL)}]
